@@ -197,7 +197,8 @@ RULES = {
            "1.5 KB to engage IDONTWANT), N+4 virtual seconds, then every subscription of every node is drained: each message of the "
            "round exactly once, nothing else. Non-trivial: a subscriber two or more hops from a publisher, or a churn round. "
            "Distinct = case JSON. Churn also flaps an existing link 1-7 times in a row; a third of the rounds start with 11-16 messages "
-           "of one publisher one second apart (sustained one-way gossip) before the measured publishes.",
+           "of one publisher one second apart (sustained one-way gossip) before the measured publishes."
+           " Cases may use a content-based namespaced message ID function (about 50 bytes with a 34-byte common prefix) on every node, and gossipsub publishers may publish through one reused MessageBatch per node.",
     "C05": "(NET) 2-4 real nodes (gossipsub / floodsub / randomsub mixes, outbound queue size 1, 2 or 32) plus a skeleton observer on "
            "full libp2p hosts over simnet with generated link latencies; histories of up to 24 operations - Subscribe, "
            "Subscription.Cancel, Relay, relay-cancel (also twice), Topic.Close, fanout-only joins, connect, whole-peer disconnect, reset "
@@ -212,7 +213,8 @@ RULES = {
            "live (up to its buffer of 1, 2, 4 or 32), then ErrSubscriptionCancelled if cancelled, then blocks if live. Non-trivial: "
            "interest returns to zero and rises again or a stream was reset (NET); an announcement hit a full queue or a subscription "
            "was cancelled with buffered messages (DD). Distinct = case JSON."
-           " (NET) links between real nodes also flap 1-7 times in a row.",
+           " (NET) links between real nodes also flap 1-7 times in a row."
+           " The observer may replace its stream to a node by a second one whose first packet names fewer topics (the old stream still open); gossipsub nodes score their peers with an application score that the history can push below the graylist threshold and back.",
     "C16": "(NET) node N of each router on a full libp2p host (NewStream optionally taking 20-400 virtual ms) with three skeleton peers "
            "over simnet (latencies 1-50 ms): the target X (floodsub / gossipsub v1.1 / v1.2), an honest forwarder Y and a leaf Z; "
            "blacklist implementation map or time-cached, route BlacklistPeer or Add inside the event loop; position of the moment: "
@@ -226,7 +228,8 @@ RULES = {
            "the old queue closed, X in no mesh / fanout / ListPeers, and no RPC reaches X later than one latency after it; at the end "
            "no outbound queue for X. Y's own messages must still arrive (control). Non-trivial: position other than settled and "
            "control messages delivered. Distinct = case JSON."
-           " X subscribes to two more topics the node has not joined (fanout membership through 'nfan' publishes), bursts of eight 30 KB publishes leave a backlog in X's queue at the moment; after BlacklistPeer the old queue must answer a Pop with ErrQueueClosed even though RPCs are still queued; timing rules carry a 300 ms backlog allowance after a burst.",
+           " X subscribes to two more topics the node has not joined (fanout membership through 'nfan' publishes), bursts of eight 30 KB publishes leave a backlog in X's queue at the moment; after BlacklistPeer the old queue must answer a Pop with ErrQueueClosed even though RPCs are still queued; timing rules carry a 300 ms backlog allowance after a burst."
+           " The node's signature policy is StrictSign, LaxSign or LaxNoSign; Y also forwards unsigned messages naming X as author.",
     "C14": "direct-driven node of each router (gossipsub with scoring and gater; with or without a discovery service; 2 real connector "
            "goroutines, automatic heartbeats, a slow validator with 0-4 remote messages in validation) under 1-4 concurrent caller "
            "goroutines issuing 1-10 calls each of 23 APIs (join, subscribe, Next, cancel, publish, publish-with-readiness, batch, relay, "
@@ -271,7 +274,8 @@ RULES = {
            "outbound queue accepted are compared as multisets of independently rendered metadata with the SEND_RPC events, and the JSON "
            "and protobuf files are parsed back and compared event by event with the in-memory sequence. Non-trivial: the trace holds a "
            "LEAVE or closed stream and a DROP_RPC or rejected message. Distinct = case JSON."
-           " Local-only publications and a second Cancel of an already cancelled subscription are part of the histories.",
+           " Local-only publications and a second Cancel of an already cancelled subscription are part of the histories."
+           " One case in three runs gossipsub with peer scoring and peer exchange, an accept-PX threshold above every score, and PRUNEs that carry peer-exchange records; batches may contain local-only entries.",
     "C18": "(Seq) every enabled sequence up to the length bound over {join / leave of two peers, pull on handler A, create handler B, pull on "
            "handler B} on the handler's event log, exhaustively; (Node) rapid histories (up to 200 ops) on a direct-driven node under all "
            "three routers: remote subscribe / unsubscribe / disconnect / inbound-stream close on 2-5 peers interleaved with handler "
@@ -279,7 +283,8 @@ RULES = {
            "handler the returned events fold from the empty set to exactly the topic's membership once quiet and drained; strict "
            "join/leave alternation per peer starting with join; an event is returned iff one is pending; no call stays blocked while "
            "events are pending (judged at synctest quiescence). Non-trivial: a join and a leave of one peer fell before either was "
-           "consumed, a handler was created while members existed, or a call was blocked waiting for an event. Distinct = case JSON.",
+           "consumed, a handler was created while members existed, or a call was blocked waiting for an event. Distinct = case JSON."
+           " Handlers are also created while a membership change of a peer is already waiting for the event loop (the loop is held, the change queued first).",
     "C06": "direct-driven node under floodsub, randomsub and gossipsub (scoring through the application score, direct peers, flood publish "
            "on/off, data-derived message IDs); histories (<= ~60 ops, <= 12 peers of all protocol versions) of arrivals, departures, remote "
            "subscribe/unsubscribe/GRAFT/PRUNE, IDONTWANT for messages to come, score changes around the publish threshold, direct-peer "
@@ -289,7 +294,8 @@ RULES = {
            "accepted message byte for byte and verify under an independent implementation of the signature rule; fan-out sets are "
            "checked across heartbeats (<= D, eligible members kept, topped up, expiry after FanoutTTL). Non-trivial: a publish with >= 3 "
            "topic peers of >= 2 recipient classes. Distinct = case JSON."
-           " Local publishes also go through AddToBatch + PublishBatch (also local-only); the time of the last fanout publication is the harness's own record, not the router's.",
+           " Local publishes also go through AddToBatch + PublishBatch (also local-only); the time of the last fanout publication is the harness's own record, not the router's."
+           " FanoutTTL is the default, 20 s or 150 s (configured through the parameters); an IDONTWANT may name a neighbouring ID (the message's ID plus a zero byte), which says nothing about the message.",
     "C09": "direct-driven gossipsub node with peer scoring through the application score, peer exchange on, optional gater, flood publish "
            "on/off, joined or fan-out only, small or large mesh; thresholds accepted by validation; 2-8 peers (all protocol versions, "
            "direct or not, inbound/outbound) whose scores are drawn from {each threshold, its two float neighbours, 0, +-0.5, +-1, "
@@ -328,7 +334,8 @@ RULES = {
            "counter exactly at its cap. "
            "(a) message cache alone: rapid sequences of put / get / get-for-peer / gossip-ids / shift (<= 60 ops, gossip <= history <= 8) "
            "against a sliding-window model (retrievable for HistoryLength shifts, advertised for HistoryGossip, per-peer transmission "
-           "counts); non-trivial = a query hits a message exactly at a window edge. (b) see part list. Distinct = distinct case JSON.",
+           "counts); non-trivial = a query hits a message exactly at a window edge. (b) see part list. Distinct = distinct case JSON."
+           " Large and small messages are also published on a topic the node has not joined (fanout): no IDONTWANT may go to anybody then.",
     "C02": "(b) direct-driven floodsub / gossipsub node with seen TTL in {2 s, 30 s, 120 s} x strategy x message ID function (default, global "
            "content hash, per-topic content hash) x 0-2 asynchronous default validators and an optional topic validator with virtual "
            "delays, 1-4 workers, signed or (strict no-sign) unsigned messages; 2-14 events of 1-5 copies of one of three contents from "
@@ -351,7 +358,8 @@ RULES = {
            "sequence number incl. duplicates, decreasing runs, 0, 2^64-1, encodings of 0..12 bytes), optionally with the first store "
            "reads of all goroutines forced to overlap and with yields inside the store; oracle = per author the stored nonces are "
            "strictly increasing, equal the accepted values, no value accepted twice, the highest value is accepted, final nonce = "
-           "highest accepted, replays get Ignore, no panic. Non-trivial: >= 2 goroutines hold messages of one author. (b) see part list.",
+           "highest accepted, replays get Ignore, no panic. Non-trivial: >= 2 goroutines hold messages of one author. (b) see part list."
+           " One case in three registers a second, accepting inline default validator after the sequence-number validator; one in five runs in an overload configuration (validation queue of one, one worker, a first validator the harness can hold) where marked bursts arrive while the pipeline is full.",
     "C10": "rapid-generated parameter sets accepted by validate() (atomic and skip-atomic with whole groups zeroed, 1-3 topics, "
            "topic cap, IP whitelist) x histories of up to ~70 scoring events (connect, disconnect, reconnect, graft, prune, "
            "validate, deliver, reject with each of the 11 reasons, duplicates before/after validation and around the delivery "
@@ -368,7 +376,8 @@ RULES = {
            "between the context check and the condition wait through the verif hook; (Stress, thorough) real goroutines racing "
            "cancel against pop. Non-trivial: Seq = a pop returned an item and the history has a full-queue refusal, an urgent item "
            "overtaking a normal one, or an operation after close; Conc = at least one operation blocked and later resumed; "
-           "Forced/Stress = every case. Distinct = distinct case JSON.",
+           "Forced/Stress = every case. Distinct = distinct case JSON."
+           " Every sequential history runs inside a bubble with each operation in its own goroutine, so an operation that must return at once and does not is a violation, not a hang.",
     "C11": "rapid-generated RPCs (0-12 messages, subscriptions, all six control kinds, extension / partial / "
            "test-extension fields, element sizes from 0 to 1.5x the limit) and limits 8..4096; oracle = round trip "
            "by canonical content over the fragments of RPC.split + size rule + no empty fragment + input not mutated. "
